@@ -391,7 +391,7 @@ def main(tier):
                        "critical options) reach the proxy handler once (Empty ACK + separate "
                        "response); other proxy requests: only 'at most one direct reply'"]
     exe = build.ensure_world("asan")
-    nworld, nreq = (480, 60) if tier == "quick" else (4000, 100)
+    nworld, nreq = (1200, 60) if tier == "quick" else (4000, 100)
     chunk = 5
     jobs = [(list(range(i, min(nworld, i + chunk))), exe, nreq) for i in range(0, nworld, chunk)]
     stats = {}
